@@ -48,10 +48,13 @@ class Scenario(object):
         for i, body in enumerate(handlers):
             self.hstart.append(len(code))
             code += ['mE%d' % i] + list(body) + ['mX%d' % i, 'r']
+            # RESUME NEXT after a failing final RETURN (stack dropped by CLEAR) must not fall into the next section
+            code += ['d', 'j%d' % len(code)]
         self.estart = len(code)
         code += ['mR'] + list(errh) + ['mS', 'u']
         self.sstart = len(code)
         code += ['mG'] + list(sub) + ['r']
+        code += ['d', 'j%d' % len(code)]
         self.code = code
 
     def to_json(self):
@@ -454,6 +457,17 @@ def boundary_scenarios():
     out.append(('strigs', S([('STRIG', 0), ('STRIG', 2), ('STRIG', 4), ('STRIG', 6)],
                             ['h0', 'h1', 'h2', 'h3', 'n0', 'n1', 'n2', 'n3', 'mM', 'mM', 'mM'], [[], ['s2'], [], []], [], [],
                             {7: [0, 1, 2, 3], 9: [2]})))
+    # ON..GOSUB 0 only removes the handler line: issued while the event is stopped (inside its own handler, after STOP)
+    # or remembered, and then re-defined, the trap must still be held / still be handled
+    out.append(('gosub0-in-own-handler', S([K1], ['h0', 'n0', 'mM', 'mM', 'mM', 'mM'], [['z0', 'h0', 'mA', 'mA', 'mA']], [], [],
+                                          {2: [0], 5: [0], 6: [0]})))
+    out.append(('gosub0-while-stopped', S([K1], ['h0', 'n0', 's0', 'mM', 'z0', 'mM', 'h0', 'n0', 'mM', 'mM'], [[]], [], [],
+                                         {3: [0]})))
+    out.append(('gosub0-while-remembered', S([('PEN',)], ['n0', 'mM', 'z0', 'mM', 'h0', 'mM', 'mM'], [[]], [], [], {1: [0]})))
+    out.append(('gosub0-in-other-handler', S([K1, K2], ['h0', 'h1', 'n0', 'n1', 'mM', 'mM', 'mM', 'mM'],
+                                            [['mA'], ['z0', 'h0', 'mB', 'mB']], [], [], {4: [0, 1], 5: [0], 6: [0]})))
+    out.append(('gosub0-at-the-prompt', S([K1], ['h0', 'n0', 'mM'], [[]], [], [], {},
+                                         [('s0', []), ('z0', [0]), ('h0', []), ('n0', []), ('J2', [])])))
     out += cross_mode_scenarios()
     return out
 
@@ -574,6 +588,11 @@ def random_scenario(rng):
 
 # ---------------------------------------------------------------------------------------------
 
+def impl_string(markers, items):
+    ticks = [it['idx'] for it in items if it['kind'] == 'T']
+    return 'ok %s %s 1' % (','.join(markers) or '-', ','.join(str(i) for i in ticks) or '-')
+
+
 def check_scenarios(ctx, scs, label):
     lines, outs, cases = [], [], []
     for name, sc in scs:
@@ -597,7 +616,7 @@ def check_scenarios(ctx, scs, label):
         for key, what in oracle(sc, items, markers, ctx.count):
             ctx.fail(key, {'scenario': sc.to_json(), 'name': name, 'observed': observed}, what)
         lines.append(model_line(sc, items))
-        outs.append('ok %s %s 1' % (','.join(markers) or '-', ','.join(str(i) for i in ticks) or '-'))
+        outs.append(impl_string(markers, items))
         cases.append({'name': name, 'scenario': sc.to_json()})
         if len(ctx.samples) < 4:
             ctx.sample({'name': name, 'program': [l.decode() for l in sc.program()], 'inject': sc.to_json()['inj'],
@@ -620,6 +639,24 @@ def run(ctx):
 
 
 def replay(ctx, payload):
+    if payload.get('kind') == 'no-failing-input-found':
+        # a correspondence replay: re-run the recorded scenarios on the implementation and through the model
+        for d in payload.get('correspondence_disagreements', []):
+            scj = d.get('case', {}).get('input', {}).get('scenario')
+            if not scj:
+                continue
+            sc = Scenario.from_json(scj)
+            try:
+                markers, items, raw = run_impl(sc)
+            except Exception as e:   # noqa
+                return 'host exception %r escaped' % (e,)
+            for k, w in oracle(sc, items, markers):
+                return w
+            mouts = ctx.model([model_line(sc, items)])
+            if mouts is not None and mouts[0] != impl_string(markers, items):
+                return ('model and implementation still disagree on scenario %s: impl %s / model %s'
+                        % (d['case']['input'].get('name'), impl_string(markers, items)[-80:], mouts[0][-80:]))
+        return None
     case = payload.get('case', {})
     if 'scenario' not in case:
         return None
